@@ -293,7 +293,15 @@ def run_check(modname, tier, seed):
     pid = mod.ID
     nproc = int(os.environ.get('VERIF_PROCS', os.cpu_count() or 4))
     timeout_ms = int(os.environ.get('VERIF_SOLVER_TIMEOUT_MS', 10000))
-    levels = mod.LEVELS[tier]
+    levels = [dict(lv) for lv in mod.LEVELS[tier]]
+    if tier == 'thorough':
+        # the budgets in the modules are weights: the thorough tier of one property gets a total wall budget
+        # (default 900 s, VERIF_THOROUGH_TOTAL overrides); levels that finish early leave their share unused
+        total_budget = float(os.environ.get('VERIF_THOROUGH_TOTAL', 900))
+        wsum = sum(lv.get('budget_s') or 0 for lv in levels) or 1.0
+        for lv in levels:
+            if lv.get('budget_s'):
+                lv['budget_s'] = round(lv['budget_s'] * total_budget / wsum, 1)
     known = load_known(pid)
     cov = FuncCov()
 
